@@ -18,7 +18,7 @@ func propC08() Property {
 			"R2: in the logon state every call that can reach an application callback or a send is dominated by MsgType == Logon. R3: stateMachine.State has exactly two writers (the transition function and Start); OnLogout and OnLogon are each invoked from exactly one function; the OnLogout function is reached only from the transition function under cur.IsConnected ∧ ¬next.IsConnected (or the connect-outside-session-time arm), and where it can be re-entered through its own callees the call is protected by a re-entrancy flag set before and cleared after. " +
 			"R4: every channel send to the connection is in a function that first tests messageOut != nil; every close(messageOut) is followed on all paths by messageOut = nil. " +
 			"R5: in the disconnect handler the reads of the state that decide OnLogout, and the OnLogout call itself, come before any call that can re-enter inbound processing (the drain of buffered messages), which may change the state. " +
-			"R6: a logged-on state that delegates an inbound message to the in-session handler (the recovery state) returns itself only when the delegate's result is still logged on: when the engine has sent its Logout (logout state) or disconnected, the wrapper must not put the session back into a logged-on state. R7: a state handler that has initiated the engine's Logout returns, on every return reachable from that call, the logout state (or delegates / takes the send-failure exit) — never its own logged-on state. R8: in the function that invokes OnLogon, every return that lets the session become logged on (nil error, or the too-high error that starts a recovery) comes after the OnLogon call. R9: the logout state's handlers return the logout state, the latent state, or the delegate's result only when that is the latent state.",
+			"R6: a logged-on state that delegates an inbound message to the in-session handler (the recovery state) returns itself only when the delegate's result is still logged on: when the engine has sent its Logout (logout state) or disconnected, the wrapper must not put the session back into a logged-on state. R7: a state handler that has initiated the engine's Logout returns, on every return reachable from that call, the logout state (or delegates / takes the send-failure exit) — never its own logged-on state. R8: in the function that invokes OnLogon, every return that lets the session become logged on (nil error, or the too-high error that starts a recovery) comes after the OnLogon call. R9: the logout state's handlers return the logout state, the latent state, or the delegate's result only when that is the latent state. R10: the application flusher (the function that only flushes the queue under IsLoggedOn()) empties the queue on the not-logged-on branch; close(messageOut) is followed by messageOut = nil before any call, and both precede the drain of buffered inbound messages.",
 		NotDecided: "'exactly one' as a count over event histories (R3 shows a unique guarded, non-re-entrant site, not a trace count); delivery to the application outside logon (C06 decides the gate).",
 		Rules: []RuleDef{
 			{ID: "C08-R1", Desc: "wire sends only when logged on / Logon-Logout / replay", Min: 4, Run: c08R1},
@@ -30,6 +30,7 @@ func propC08() Property {
 			{ID: "C08-R7", Desc: "a handler that initiated the Logout returns the logout state", Min: 3, Run: c08R7},
 			{ID: "C08-R8", Desc: "OnLogon precedes every return that makes the session logged on", Min: 2, Run: c08R8},
 			{ID: "C08-R9", Desc: "the logout state never hands the session back to a logged-on state", Min: 2, Run: c08R9},
+			{ID: "C08-R10", Desc: "not logged on → queue emptied; close → nil → drain on teardown", Min: 2, Run: c08R10},
 		},
 	}
 }
